@@ -17,11 +17,11 @@
 #include "vector.h"
 #include "hex.h"
 
-static char dir[64];
+static char dir[512];
 static int dfd;
 
 static void write_out(struct message *m, const char *tag) {
-	char path[128];
+	char path[600];
 	int fd;
 	snprintf(path, sizeof path, "%s/out", dir);
 	fd = open(path, O_RDWR | O_CREAT | O_TRUNC, 0600);
@@ -44,7 +44,8 @@ int main(void) {
 	size_t cap = 0;
 	char **keep = NULL;
 	size_t nkeep = 0;
-	strcpy(dir, "/tmp/mdv-msgdrv-XXXXXX");
+	setvbuf(stdout, NULL, _IOLBF, 0);	/* a request that kills the driver must be identifiable */
+	snprintf(dir, sizeof dir, "%s/mdv-msgdrv-XXXXXX", getenv("VERIF_DRV_TMP") ? getenv("VERIF_DRV_TMP") : "/tmp");
 	if (mkdtemp(dir) == NULL) err(1, "mkdtemp");
 	dfd = open(dir, O_RDONLY | O_DIRECTORY);
 	while (getline(&line, &cap, stdin) > 0) {
